@@ -95,7 +95,7 @@ impl Prop for C08 {
                 let c = related(b, kc, k2, d2, fc);
                 Case::Tri { a, b, c }
             }),
-            3 => (arb_d(), arb_int()).prop_map(|(d, i)| Case::Int { d, i }),
+            3 => (arb_d(), arb_int_full()).prop_map(|(d, i)| Case::Int { d, i }),
             // integer equal / adjacent to the decimal's value, or overflowing when scaled
             3 => (arb_int(), 0u8..=18, -1i128..=1, 0u8..3).prop_map(|(i, s, off, kind)| {
                 let d = match kind {
